@@ -69,6 +69,45 @@ def gen_signed_wide_cases(rng, n_quad, n_noisy):
     return cases
 
 
+def gen_censoring_cases(rng, reps):
+    """deterministic family (a stream of its own): (i) finite limits that censor NOTHING (a finite lower limit below every
+    observation, a finite upper limit above every observation, both) -- the buckets must then be what they are without limits,
+    closed by -inf/+inf resp. the support; (ii) censored observations whose magnitude is 10 ... 1e9 times that of every uncensored
+    one (a diverged run), on either side: only their COUNT may enter (rounding precision, bucket edges and the objective are
+    functions of the uncensored values, the limits and the counts)"""
+    cases = []
+    for cls in ("quad", "noisy"):
+        for r in range(reps):
+            n = rng.choice([5, 8, 12, 20])
+            ys = [rng.uniform(0.05, 1.0) for _ in range(n)]          # full-precision floats of order 1
+            dtype = "float64"
+            lo_, hi_ = min(ys), max(ys)
+            light = {"c": ["i", 1, 3]} if cls == "noisy" else {}
+            for kind in ("lower_below_all", "upper_above_all", "both_outside"):
+                lo = lo_ - rng.choice([1e-3, 0.5, 10.0]) if kind != "upper_above_all" else -INF
+                hi = hi_ + rng.choice([1e-3, 0.5, 10.0]) if kind != "lower_below_all" else INF
+                case = F.make_case(cls, list(ys), dtype, lo, hi, dict(light))
+                case["family"] = dict(name="limits_censor_nothing", kind=kind)
+                cases.append(case)
+            for factor in (1e1, 1e3, 1e6, 1e9):
+                for side in ("right", "left"):
+                    k = rng.choice([1, 2, 3])
+                    if side == "right":
+                        extra = [hi_ * factor * rng.uniform(1.0, 3.0) for _ in range(k)]
+                        lo, hi = -INF, hi_ + rng.choice([1e-6, 1e-2, 0.3])
+                    else:
+                        extra = [-(hi_ * factor * rng.uniform(1.0, 3.0)) for _ in range(k)]
+                        lo, hi = lo_ - rng.choice([1e-6, 1e-2, 0.03]), INF
+                    allys = list(ys) + extra
+                    rng.shuffle(allys)
+                    if F.data_anchor(allys, lo, hi) is None:
+                        continue
+                    case = F.make_case(cls, allys, dtype, lo, hi, dict(light))
+                    case["family"] = dict(name="censored_values_of_much_larger_magnitude", factor=factor, side=side, count=k)
+                    cases.append(case)
+    return cases
+
+
 def side_flags(case, out, sp, b):
     """explicit predicates on the failing input (rounded values, as `np.unique` sees them): the hypotheses of
     the theorem `buckets_model_eq_spec` one by one"""
@@ -159,6 +198,11 @@ def run(seed, tier, replay=None):
         tasks += [dict(case=c, mode="stub", policy=gen_policy(rng_w, c), n_theta=3, seed=len(cases) + i, gen_seed=len(cases) + i)
                   for i, c in enumerate(wide)]
         cases += wide
+        rng_c = C.rng_for("C10/censoring", seed)
+        cens = gen_censoring_cases(rng_c, 1 if tier == "quick" else 8)
+        tasks += [dict(case=c, mode="stub", policy=gen_policy(rng_c, c), n_theta=3, seed=len(cases) + i, gen_seed=len(cases) + i)
+                  for i, c in enumerate(cens)]
+        cases += cens
     outs = F.run_pool(tasks + real_tasks)
     real_outs = outs[len(tasks):]
     outs = outs[:len(tasks)]
@@ -174,7 +218,9 @@ def run(seed, tier, replay=None):
         rep.count("dtype=" + case["dtype"])
         s = out["summary"]
         fam = case.get("family")
-        if fam is not None:
+        if fam is not None and fam["name"] != "signed_wide":
+            rep.count("family=%s:%s" % (fam["name"], fam.get("kind") or "factor=%g:%s" % (fam.get("factor", 0), fam.get("side"))))
+        elif fam is not None:
             lim = "none" if s["n_lower"] == 0 and s["n_upper"] == 0 else "censoring"
             rep.count(f"family={fam['name']}")
             rep.count(f"family={fam['name']}:sign={fam['sign']}")
